@@ -4,7 +4,9 @@ import json
 from collections.abc import Sequence
 from typing import TYPE_CHECKING, Any, Literal, Optional
 
+import duckdb
 import numpy as np
+import snowflake.connector.errors
 from duckdb import DuckDBPyConnection
 
 from fakesnow.conn import FakeSnowflakeConnection
@@ -72,7 +74,11 @@ def write_pandas(
 
         conn.cursor().execute(f"CREATE TABLE IF NOT EXISTS {name} ({','.join(cols)})")
 
-    count = _insert_df(conn._duck_conn, df, name)  # noqa: SLF001
+    try:
+        count = _insert_df(conn._duck_conn, df, name)  # noqa: SLF001
+    except duckdb.ConnectionException as e:
+        # same error as executing a statement on a closed connection
+        raise snowflake.connector.errors.DatabaseError(msg=e.args[0], errno=250002, sqlstate="08003") from None
 
     # mocks https://docs.snowflake.com/en/sql-reference/sql/copy-into-table.html#output
     mock_copy_results = [("fakesnow/file0.txt", "LOADED", count, count, 1, 0, None, None, None, None)]
